@@ -129,7 +129,7 @@ def run(ctx):
             else:
                 r.bad("last-out", "anchor-missing: no `deactivate_worker() == 0` test", fn=f)
 
-    with ctx.rule("C07.DOMINO", "every `return None` re-pushes the quit message first", floor=2, kind="PASS") as r:
+    with ctx.rule("C07.DOMINO", "every `return None` re-pushes the quit message first; Worker::run ends only on None", floor=3, kind="PASS") as r:
         nones = [bb for bb, j, st in f.stmts() if st["k"] == "assign" and st["place"]["l"] == 0 and st["rv"]["k"] == "agg"
                  and st["rv"].get("variant") == "None"]
         sq = {c.bb for c in f.calls_to(WK + "::send_quit")}
@@ -144,6 +144,29 @@ def run(ctx):
                       loc=f.blocks[n]["stmts"][-1]["loc"], construct="domino")
             else:
                 r.ok("none|%d" % i, "send_quit precedes return None", fn=f)
+
+        # A worker leaves Worker::run only because get_work() answered None — the one place that relays the quit message.
+        # Leaving by any other exit (a break after the visitor said Quit, an early return) skips the relay: the workers
+        # asleep in the idle loop are then never woken and the walk does not return.
+        run_ = facts.fn(WK + "::run")
+        gw = run_.calls_to(WK + "::get_work")
+        from ..flow import discr_switch_edges
+        none_edges = set()
+        ebr = ExprBuilder(run_)
+        for bb, arms, ow, e, missing in discr_switch_edges(run_, lambda e: mentions_call(e, WK + "::get_work"), ebr):
+            if "None" in arms:
+                none_edges.add(arms["None"])
+            elif "Some" in arms:
+                none_edges.add(ow)
+        if not gw or not none_edges:
+            r.bad("run|exit", "anchor-missing: Worker::run does not loop on get_work()", fn=run_)
+        else:
+            rets = [b_ for b_ in C.reach(run_, [0], removed_edges=none_edges) if run_.blocks[b_]["term"]["k"] == "return"]
+            if rets:
+                r.bad("run|exit", "Worker::run can leave its loop without get_work() having answered None: that exit sends no quit "
+                      "message, so workers asleep in the idle loop are never woken (the walk hangs)", fn=run_, construct="run-exit")
+            else:
+                r.ok("run|exit", "the only way out of Worker::run is get_work() == None", fn=run_)
 
     with ctx.rule("C07.FLAG", "quit flag consulted before every hand-out; Quit sets it; WalkState tables", floor=9, exhaustive=True,
                   kind="PASS/ARMS/TABLE") as r:
